@@ -33,6 +33,11 @@ Describe(t) == LET p == Parse(t)
 
 ASSUME PrintT(ToJson([templates |-> [k \in 1..Len(Templates) |-> Describe(Templates[k])]]))
 
-Emit == Len(id) >= EmitFrom => PrintT(ToJson([id |-> out.id, n |-> out.names, rt |-> out.rt]))
+\* what the identifier covers (read by checks/c20.py for its vacuity guard, not by the driver): a
+\* digit-led word in first position / in a later position
+Covers(s) == LET ws == Words(s)
+             IN <<Len(ws) >= 1 /\ DigitLed(ws[1]), \E n \in 2..Len(ws) : DigitLed(ws[n])>>
+
+Emit == Len(id) >= EmitFrom => PrintT(ToJson([id |-> out.id, n |-> out.names, rt |-> out.rt, dw |-> Covers(id)]))
 
 =============================================================================
